@@ -16,9 +16,12 @@ const ansiOSC = "\u001B\\][^\u0007\u001B]*(?:\u0007|\u001B\\\\)"
 // intermediate bytes.
 const ansiCSI = "\u001B\\[[0-?]*[ -/]*[@-~]"
 
+// (the general pattern used to have a second alternative, "letters, digits and semicolons up to a
+// BEL", meant for operating system commands: it also swallowed plain output that follows a two
+// character sequence such as ESC c up to the next BEL; ansiOSC covers the real thing)
 const ansi = "(?:" + ansiOSC + ")|(?:" + ansiCSI + ")|" +
-	"[\u001B\u009B][[\\]()#;?]*(?:(?:(?:[a-zA-Z\\d]*(?:;[a-zA-Z\\d]*)*)?" +
-	"\u0007)|(?:(?:\\d{1,4}(?:;\\d{0,4})*)?[\\dA-PRZcf-ntqry=><~]))"
+	"[\u001B\u009B][[\\]()#;?]*" +
+	"(?:(?:\\d{1,4}(?:;\\d{0,4})*)?[\\dA-PRZcf-ntqry=><~])"
 
 var (
 	ansiPattern     *regexp.Regexp //nolint: gochecknoglobals
